@@ -2,6 +2,7 @@ import NanoVerif.Model.Isa
 import NanoVerif.Model.Nvm
 import NanoVerif.Model.Verifier
 import NanoVerif.Model.Vm
+import NanoVerif.Model.Cop
 namespace NanoVerif.Driver
 
 def natList (ws : List String) : Option (List Nat) := ws.mapM String.toNat?
@@ -192,6 +193,60 @@ def verifyCmd (hex : String) : String :=
     | .error .oob => "load-oob"
     | .ok m => if verify m then "ok" else "fail"
 
+partial def cvalText : CVal → String
+  | .int n => s!"i{n}"
+  | .float n => s!"f{n}"
+  | .bool b => if b then "b1" else "b0"
+  | .str s => "s" ++ hexOr s
+  | .opaque n => s!"o{n}"
+  | .void => "v"
+  | .other t => s!"t{t}"
+  | .arr et es => s!"a{et}.{es.length}" ++ String.join (es.map fun e => "," ++ cvalText e)
+
+/-- prefix-form parser over the comma separated tokens -/
+partial def parseCVal : List String → Option (CVal × List String)
+  | [] => none
+  | t :: rest =>
+    let body := (t.drop 1).toString
+    match t.front with
+    | 'i' => body.toNat?.map fun n => (.int (n % 2^64), rest)
+    | 'f' => body.toNat?.map fun n => (.float (n % 2^64), rest)
+    | 'o' => body.toNat?.map fun n => (.opaque (n % 2^64), rest)
+    | 'b' => some (.bool (body == "1"), rest)
+    | 'v' => some (.void, rest)
+    | 't' => body.toNat?.map fun n => (.other (n % 256), rest)
+    | 's' => (ofHex body).map fun b => (.str b, rest)
+    | 'a' =>
+      match (body.splitOn ".").mapM String.toNat? with
+      | some [et, cnt] =>
+        let rec go (k : Nat) (ts : List String) (acc : List CVal) : Option (List CVal × List String) :=
+          if k == 0 then some (acc.reverse, ts)
+          else match parseCVal ts with
+            | none => none
+            | some (v, ts') => go (k - 1) ts' (v :: acc)
+        (go cnt rest []).map fun (es, ts) => (.arr (et % 256) es, ts)
+      | _ => none
+    | _ => none
+
+def copSerCmd (ws : List String) : String :=
+  match ws with
+  | [roomS, txt] =>
+    match roomS.toNat?, parseCVal (txt.splitOn ",") with
+    | some room, some (v, []) =>
+      (match copSer v room with
+       | none => "err"
+       | some bs => "ok " ++ hexOr bs)
+    | _, _ => "bad-op"
+  | _ => "bad-op"
+
+def copDeCmd (hex : String) : String :=
+  match ofHex hex with
+  | none => "bad-op"
+  | some bs =>
+    match copDe (bs.length + 2) bs with
+    | none => "err"
+    | some (v, n) => s!"ok {n} " ++ cvalText v
+
 def handle (line : String) : String :=
   match line.splitOn " " with
   | "isa.dec" :: [hex] => isaDec hex
@@ -202,6 +257,8 @@ def handle (line : String) : String :=
   | "nvm.ser" :: [txt] => nvmSer txt
   | "verify" :: [hex] => verifyCmd hex
   | "vm.run" :: ws => vmRun ws
+  | "cop.ser" :: ws => copSerCmd ws
+  | "cop.de" :: [hex] => copDeCmd hex
   | _ => "bad-op"
 
 end NanoVerif.Driver
